@@ -21,6 +21,7 @@ import (
 
 	"github.com/pkg/errors"
 
+	"github.com/oxia-db/oxia/common/compare"
 	"github.com/oxia-db/oxia/proto"
 )
 
@@ -37,7 +38,7 @@ func generateUniqueKeyFromSequences(batch WriteBatch, req *proto.PutRequest) (st
 		return "", ErrBadVersionId
 	}
 
-	parts, err := findCurrentLastKeyInSequence(batch, req)
+	lastKey, parts, err := findCurrentLastKeyInSequence(batch, req)
 	if err != nil {
 		return "", err
 	}
@@ -54,38 +55,55 @@ func generateUniqueKeyFromSequences(batch WriteBatch, req *proto.PutRequest) (st
 		if idx < len(parts) {
 			_, err := fmt.Sscanf(parts[idx], "%020d", &lastValue)
 			if err != nil {
-				return "", err
+				// The current last key was not generated from a sequence: it cannot be continued.
+				// This depends on the content of the db and not just on the request: it has to be
+				// a response for this operation, and not a failure in applying a committed log entry
+				return "", ErrBadVersionId
 			}
 		} else {
 			// There are additional sequences
 			lastValue = 0
 		}
 
-		newKey = fmt.Sprintf("%s-%020d", newKey, lastValue+delta)
+		newValue := lastValue + delta
+		if newValue < lastValue || (idx == 0 && newValue == maxSequence) {
+			// The sequence is exhausted: after wrapping around, the new key would not be greater than
+			// the existing ones anymore (and could overwrite one of them). The max value itself cannot be
+			// used either, because it is the exclusive upper bound when searching for the current last key
+			return "", ErrBadVersionId
+		}
+
+		newKey = fmt.Sprintf("%s-%020d", newKey, newValue)
+	}
+
+	if lastKey != "" && compare.CompareWithSlash([]byte(newKey), []byte(lastKey)) <= 0 {
+		// A key that was not generated from the sequence is in the way: the new key would not come
+		// after the existing ones, and it could even be one of them
+		return "", ErrBadVersionId
 	}
 
 	return newKey, nil
 }
 
-func findCurrentLastKeyInSequence(wb WriteBatch, req *proto.PutRequest) ([]string, error) {
+// findCurrentLastKeyInSequence returns the current last key with the prefix of the sequence (empty
+// if there is none) and the parts of its suffix.
+func findCurrentLastKeyInSequence(wb WriteBatch, req *proto.PutRequest) (string, []string, error) {
 	prefixKey := req.Key
 	maxKey := fmt.Sprintf("%s-%020d", prefixKey, maxSequence)
-	lastKeyInSequence, err := wb.FindLower(maxKey)
+	lastKey, err := wb.FindLower(maxKey)
 	if err != nil && !errors.Is(err, ErrKeyNotFound) {
-		return nil, err
+		return "", nil, err
 	}
 
-	if errors.Is(err, ErrKeyNotFound) || !strings.HasPrefix(lastKeyInSequence, prefixKey) {
-		lastKeyInSequence = ""
-	} else {
-		lastKeyInSequence = strings.TrimPrefix(lastKeyInSequence, prefixKey)
+	if errors.Is(err, ErrKeyNotFound) || !strings.HasPrefix(lastKey, prefixKey) {
+		lastKey = ""
 	}
 
-	parts := strings.Split(lastKeyInSequence, "-")[1:]
+	parts := strings.Split(strings.TrimPrefix(lastKey, prefixKey), "-")[1:]
 	if len(parts) > len(req.SequenceKeyDelta) {
 		// The request has less sequence key deltas than there are already
 		// available in the sequence
-		return nil, ErrMissingSequenceDeltas
+		return "", nil, ErrMissingSequenceDeltas
 	}
-	return parts, nil
+	return lastKey, parts, nil
 }
